@@ -178,7 +178,7 @@ def judge_line(prop, cfg, dbg, group, args, resp, st, reqline, mode, endian='lit
                 if len(st['oracle_mismatch_samples']) < 5:
                     st['oracle_mismatch_samples'].append({'request': reqline, 'op': name, 'model': repr(e), 'primitive': raw, 'mode': mode})
             continue
-        loose = e is ANY or e is NOPANIC or isinstance(e, (OneOf, Pred))
+        loose = is_loose(e)
         ok_model = matches(e, obs)
         pr = pobs.get(name)
         if pr is not None:
@@ -193,7 +193,7 @@ def judge_line(prop, cfg, dbg, group, args, resp, st, reqline, mode, endian='lit
                 if not ok:
                     add_violation(st, prop, cfg, mode, reqline, name, raw, 'primitive says ' + praw, 'bnum != primitive (model disagrees with primitive too)')
                 continue
-            if not loose and not matches(po, obs):
+            if ok_model and not loose and not matches(po, obs):
                 # model accepted both although they differ: cannot happen for exact expectations
                 st['inconclusive'].append('comparator inconsistency on %r op %s' % (reqline, name))
         if not ok_model:
@@ -210,6 +210,14 @@ def judge_line(prop, cfg, dbg, group, args, resp, st, reqline, mode, endian='lit
             st['inconclusive'].append('relation check raised on %r: %s' % (reqline, traceback.format_exc()[-600:]))
     if len(st['samples']) < 3:
         st['samples'].append({'cfg': cfg.name, 'mode': mode, 'request': reqline, 'response': resp[:600]})
+
+
+def is_loose(e):
+    if e is ANY or e is NOPANIC or isinstance(e, (OneOf, Pred)):
+        return True
+    if isinstance(e, tuple):
+        return any(is_loose(x) for x in e)
+    return False
 
 
 def add_violation(st, prop, cfg, mode, reqline, name, observed, expected, why):
